@@ -77,6 +77,19 @@ impl Backend {
         Ok(None)
     }
 
+    /// The definition a call hierarchy item refers to: the one in `file_path` on the item's
+    /// line, falling back to the first definition in that file (items from older clients).
+    fn definition_for_item<'a>(
+        defs: &'a [crate::fixtures::types::FixtureDefinition],
+        file_path: &std::path::Path,
+        item: &CallHierarchyItem,
+    ) -> Option<&'a crate::fixtures::types::FixtureDefinition> {
+        let item_line = Self::lsp_line_to_internal(item.selection_range.start.line);
+        defs.iter()
+            .find(|d| d.file_path == file_path && d.line == item_line)
+            .or_else(|| defs.iter().find(|d| d.file_path == file_path))
+    }
+
     /// Handle callHierarchy/incomingCalls request.
     ///
     /// Returns all fixtures and tests that use the given fixture.
@@ -96,8 +109,8 @@ impl Backend {
             return Ok(None);
         };
 
-        // Find the matching definition by file path
-        let Some(definition) = defs.iter().find(|d| d.file_path == file_path) else {
+        // Find the definition the item points at (a file may define the name more than once)
+        let Some(definition) = Self::definition_for_item(&defs, &file_path, item) else {
             return Ok(None);
         };
 
@@ -174,8 +187,8 @@ impl Backend {
             return Ok(None);
         };
 
-        // Find the matching definition by file path
-        let Some(definition) = defs.iter().find(|d| d.file_path == file_path) else {
+        // Find the definition the item points at (a file may define the name more than once)
+        let Some(definition) = Self::definition_for_item(&defs, &file_path, item) else {
             return Ok(None);
         };
 
